@@ -106,9 +106,10 @@ class LunrIndexWriter:
             assert ob.parsed_docstring is not None
             try:
                 doc = ' '.join(node2stan.gettext(ob.parsed_docstring.to_node()))
-            except NotImplementedError:
+            except Exception:
                 # some ParsedDocstring subclass raises NotImplementedError on calling to_node()
-                # Like ParsedPlaintextDocstring.
+                # Like ParsedPlaintextDocstring; the conversion can also fail, in which case
+                # the docstring is presented as plain text.
                 doc = source.docstring
         return doc
 
